@@ -432,4 +432,78 @@ example : Normal T1210 (addNorm T1210 ⟨512, false⟩ 1 ([1, 1, 1, 1, 1, 1, 1, 
   refine ⟨?_, by decide, by decide⟩
   unfold Normal; decide
 
+/-! ### reciprocal: the result is normalised whatever the fixed-point reciprocal returned (repo fix fd7109b) -/
+
+/-- ★ `reciprocal` returns a NORMALISED secure float for every value `r` that the secure fixed-point computation
+`0.5 * (1/s)` may have produced: `1/2 ≤ |S|/2^f ≤ 1`.  (Before the fix `r` itself was used: for a significand of exactly
+1/2 the fixed-point reciprocal may return 2 + one unit, `r = 2^f + 1`, and `_output` failed its assertion.) -/
+theorem recip_normal (t : Ty) (hf : 1 ≤ t.f) (a : F) (r : Int) : Normal t (recip t a r) := by
+  unfold Normal recip recipClamp
+  simp only
+  have h1 : (2 : Int) ^ (t.f - 1) ≤ (2 : Int) ^ t.f := pow_le_pow_right₀ (by norm_num) (by omega)
+  have h0 : (0 : Int) < (2 : Int) ^ (t.f - 1) := by positivity
+  by_cases hr : r < 0
+  · simp only [hr, if_true]
+    right; right
+    have : (2 : Int) ^ (t.f - 1) ≤ min (max (-1 * r) ((2 : Int) ^ (t.f - 1))) ((2 : Int) ^ t.f) :=
+      le_min (le_max_right _ _) h1
+    have h2 : min (max (-1 * r) ((2 : Int) ^ (t.f - 1))) ((2 : Int) ^ t.f) ≤ (2 : Int) ^ t.f := min_le_right _ _
+    constructor <;> linarith
+  · simp only [hr, if_false, one_mul]
+    right; left
+    exact ⟨le_min (le_max_right _ _) h1, min_le_right _ _⟩
+
+/-- the normalisation changes nothing when the fixed-point result is already normalised, and moves it by at most one unit
+when it is one unit outside (the only deviation the fixed-point reciprocal of 1/2 or 1 can produce) -/
+theorem recip_clamp_exact (f : Nat) (r : Int) :
+    (((2 : Int) ^ (f - 1) ≤ r ∧ r ≤ (2 : Int) ^ f) ∨ (-(2 : Int) ^ f ≤ r ∧ r ≤ -(2 : Int) ^ (f - 1)) → recipClamp f r = r) ∧
+    (r = (2 : Int) ^ f + 1 → recipClamp f r = (2 : Int) ^ f) ∧
+    (r = -((2 : Int) ^ f + 1) → recipClamp f r = -(2 : Int) ^ f) := by
+  have h0 : (0 : Int) < (2 : Int) ^ (f - 1) := by positivity
+  have h1 : (2 : Int) ^ (f - 1) ≤ (2 : Int) ^ f := pow_le_pow_right₀ (by norm_num) (by omega)
+  refine ⟨?_, ?_, ?_⟩
+  · rintro (⟨ha, hb⟩ | ⟨ha, hb⟩)
+    · unfold recipClamp
+      have hr : ¬ r < 0 := by linarith
+      simp only [hr, if_false, one_mul]
+      rw [max_eq_left ha, min_eq_left hb]
+    · unfold recipClamp
+      have hr : r < 0 := by linarith
+      simp only [hr, if_true]
+      rw [max_eq_left (by linarith), min_eq_left (by linarith)]
+      ring
+  · intro h
+    unfold recipClamp
+    have hr : ¬ r < 0 := by rw [h]; linarith
+    simp only [hr, if_false, one_mul]
+    rw [max_eq_left (by rw [h]; linarith), min_eq_right (by rw [h]; linarith)]
+  · intro h
+    unfold recipClamp
+    have hr : r < 0 := by rw [h]; linarith
+    simp only [hr, if_true]
+    rw [max_eq_left (by rw [h]; linarith), min_eq_right (by rw [h]; linarith)]
+    ring
+
+/-- the unnormalised value the old code returned for a significand of 1/2 violates the output assertion -/
+example : ¬ Normal T1210 ⟨⟨(2 : Int) ^ 10 + 1, false⟩, 0⟩ := by
+  unfold Normal T1210; decide
+
+example : recipClamp 10 ((2 : Int) ^ 10 + 1) = 1024 ∧ recipClamp 10 (-511) = -512 ∧ recipClamp 10 700 = 700 := by decide
+
+/-! ### selection of secure floats (repo fix 8c9af01: `if_else` / `if_swap` select significand and exponent separately) -/
+
+/-- ★ selecting the two components with the bit `c` returns EXACTLY one of the operands (integer / field arithmetic: no
+rounding is involved), which is what sorting, min and max of secure floats need: the result is an element of the input -/
+theorem select_components (c s1 s2 e1 e2 : Int) (hc : c = 0 ∨ c = 1) :
+    (c * (s1 - s2) + s2, c * (e1 - e2) + e2) = if c = 1 then (s1, e1) else (s2, e2) := by
+  rcases hc with rfl | rfl <;> simp
+
+/-- … whereas the arithmetic selection `c*(x - y) + y` in floating point goes through the rounded difference `x - y`:
+already for `c = 1` it returns `(x - y) + y`, which differs from `x` as soon as `x - y` is rounded.  On the value level
+(significands of 3 digits, exponents explicit): x = 1.00·2^0, y = 1.01·2^7 (binary), the difference rounds to -1.00·2^7 and
+adding y back gives 0.01·2^7 = 2, not 1. -/
+example : let x : Int := 4; let y : Int := 5 * 2 ^ 7   -- scaled by 4: x = 1.00b, y = 1.01b * 2^7
+    let d : Int := (x - y) / 2 ^ 7 * 2 ^ 7             -- x - y rounded (toward -inf) to 3 significant bits at exponent 7
+    d + y ≠ x := by decide
+
 end MpycV.C05
